@@ -114,6 +114,64 @@ func corpusDirs(repo string) []string {
 	return out
 }
 
+var logRecord = regexp.MustCompile(`\[\d{4}-\d\d-\d\d \d\d:\d\d:\d\d\] \d+\s+[A-Z]+\s*:[^\n]*`)
+
+// coarse reduces a run to what stays recognisable when trace lines are mixed
+// into the same stream (test header and status are then no longer on one
+// line): the summary line, the error lines, and the number of PASS and FAIL
+// marks.
+func coarse(raw *Raw) map[string][]string {
+	res := map[string][]string{"#stderr": {}}
+
+	for _, l := range strings.Split(raw.Stdout, "\n") {
+		if m := totalLine.FindStringSubmatch(strings.TrimRight(l, "\r ")); m != nil {
+			res["#total"] = []string{"total=" + m[1] + " failed=" + m[3]}
+		}
+	}
+
+	// Log records (which may quote any text) are removed before counting.
+	clean := logRecord.ReplaceAllString(raw.Stdout, "")
+	res["#marks"] = []string{fmt.Sprintf("pass=%d fail=%d", strings.Count(clean, "(PASS)"), strings.Count(clean, "(FAIL)"))}
+
+	for _, l := range strings.Split(raw.Stderr, "\n") {
+		l = strings.TrimSpace(l)
+		if strings.HasPrefix(l, "Error") {
+			res["#stderr"] = append(res["#stderr"], NormErr(l))
+		}
+	}
+
+	return res
+}
+
+// view parses a run the way the configuration it is compared with allows.
+func view(raw *Raw, outOnly bool, cfg Config) map[string][]string {
+	if cfg.Diag == "trace" {
+		return coarse(raw)
+	}
+
+	b, _ := blocks(raw, outOnly)
+
+	return b
+}
+
+func (e *engine) dirsFor(cfg Config, dirs []string) []string {
+	if cfg.Diag != "trace" || len(e.plan.CorpusTraceDirs) == 0 {
+		return dirs
+	}
+
+	var out []string
+
+	for _, d := range dirs {
+		for _, t := range e.plan.CorpusTraceDirs {
+			if d == t {
+				out = append(out, d)
+			}
+		}
+	}
+
+	return out
+}
+
 type corpusRun map[string]map[string][]string // dir -> block key -> lines
 
 // corpusBatch runs every directory under (cfg, mode) in batch processes.
@@ -154,6 +212,23 @@ func (e *engine) corpus() {
 	}
 
 	dirs := corpusDirs(e.run.Repo)
+
+	if re := os.Getenv("PDIFF_DIRS"); re != "" {
+		rx := regexp.MustCompile(re)
+
+		var keep []string
+
+		for _, d := range dirs {
+			if rx.MatchString(d) {
+				keep = append(keep, d)
+			}
+		}
+
+		dirs = keep
+
+		e.r.Capped("development filter PDIFF_DIRS=" + re)
+	}
+
 	if len(dirs) == 0 {
 		report.Fatal("no corpus under %s/tests", e.run.Repo)
 	}
@@ -186,6 +261,7 @@ func (e *engine) corpus() {
 			var wg sync.WaitGroup
 
 			base := [2]corpusRun{{}, {}}
+			baseCoarse := [2]corpusRun{{}, {}}
 			done := [2]map[string]bool{{}, {}}
 
 			for k := 0; k < 2; k++ {
@@ -193,9 +269,11 @@ func (e *engine) corpus() {
 
 				e.corpusBatch(&wg, g.Base, mode, dirs, func(dir string, raw *Raw) {
 					b, _ := blocks(raw, e.plan.OutOnly)
+					c := coarse(raw)
 
 					mu.Lock()
 					base[k][dir] = b
+					baseCoarse[k][dir] = c
 					done[k][dir] = raw.Done
 					mu.Unlock()
 				})
@@ -203,15 +281,23 @@ func (e *engine) corpus() {
 
 			wg.Wait()
 
-			ref := corpusRun{}
+			// ref: per-test view; refCoarse: the view used against --trace.
+			ref, refCoarse := corpusRun{}, corpusRun{}
 
 			for _, d := range dirs {
 				ref[d] = map[string][]string{}
+				refCoarse[d] = map[string][]string{}
 
 				if !done[0][d] || !done[1][d] {
 					noisy++
 
 					continue
+				}
+
+				for k, v := range baseCoarse[0][d] {
+					if w, ok := baseCoarse[1][d][k]; ok && eqLines(v, w) {
+						refCoarse[d][k] = v
+					}
 				}
 
 				for k, v := range base[0][d] {
@@ -233,15 +319,20 @@ func (e *engine) corpus() {
 			for ci, cfg := range g.Configs {
 				ci, cfg := ci, cfg
 
-				e.corpusBatch(&wg, cfg, mode, dirs, func(dir string, raw *Raw) {
-					b, _ := blocks(raw, e.plan.OutOnly)
+				want := ref
+				if cfg.Diag == "trace" {
+					want = refCoarse
+				}
+
+				e.corpusBatch(&wg, cfg, mode, e.dirsFor(cfg, dirs), func(dir string, raw *Raw) {
+					b := view(raw, e.plan.OutOnly, cfg)
 					differs := !raw.Done
 
 					n := 0
 
 					var diff []string
 
-					for k, v := range ref[dir] {
+					for k, v := range want[dir] {
 						n++
 
 						if w, ok := b[k]; !ok || !eqLines(v, w) {
@@ -258,7 +349,7 @@ func (e *engine) corpus() {
 					mu.Lock()
 					compared += int64(n)
 
-					if differs && len(ref[dir]) > 0 {
+					if differs && len(want[dir]) > 0 {
 						cands = append(cands, cand{gi, ci, mode, dir, sigOf(diff)})
 					}
 					mu.Unlock()
@@ -315,20 +406,19 @@ func (e *engine) corpus() {
 	wg.Wait()
 }
 
-func (e *engine) freshCorpus(cfg Config, mode, dir string) (map[string][]string, bool) {
+func (e *engine) freshCorpus(cfg, viewOf Config, mode, dir string) (map[string][]string, bool) {
 	raw := e.run.Fresh(cfg.TestArgs(mode, filepath.Join(e.run.Repo, "tests", dir)), cfg.Diag == "debug")
-	b, _ := blocks(raw, e.plan.OutOnly)
 
-	return b, raw.Done
+	return view(raw, e.plan.OutOnly, viewOf), raw.Done
 }
 
 // confirmCorpus runs one directory twice under each side in fresh processes
 // and reports the blocks that are stable on both sides and differ.
 func (e *engine) confirmCorpus(base, cfg Config, mode, dir, only string) {
-	b1, ok1 := e.freshCorpus(base, mode, dir)
-	b2, ok2 := e.freshCorpus(base, mode, dir)
-	c1, ok3 := e.freshCorpus(cfg, mode, dir)
-	c2, ok4 := e.freshCorpus(cfg, mode, dir)
+	b1, ok1 := e.freshCorpus(base, cfg, mode, dir)
+	b2, ok2 := e.freshCorpus(base, cfg, mode, dir)
+	c1, ok3 := e.freshCorpus(cfg, cfg, mode, dir)
+	c2, ok4 := e.freshCorpus(cfg, cfg, mode, dir)
 
 	if !ok1 || !ok2 || !ok3 || !ok4 {
 		e.r.Add("corpus_confirmations_cut", 1)
@@ -343,40 +433,74 @@ func (e *engine) confirmCorpus(base, cfg Config, mode, dir, only string) {
 
 	sort.Strings(keys)
 
-	for _, k := range keys {
-		if only != "" && k != only {
-			continue
+	// Per-test blocks first; the aggregate blocks (summary line, stderr) only
+	// speak when no single test block differs.
+	reported := 0
+
+	for pass := 0; pass < 2; pass++ {
+		if pass == 1 && reported > 0 {
+			break
 		}
 
-		v := b1[k]
+		for _, k := range keys {
+			if only != "" && k != only {
+				continue
+			}
 
-		if w, ok := b2[k]; !ok || !eqLines(v, w) {
-			continue // not stable in the baseline
+			if aggregate := strings.HasPrefix(k, "#"); aggregate != (pass == 1) {
+				continue
+			}
+
+			v := b1[k]
+
+			if w, ok := b2[k]; !ok || !eqLines(v, w) {
+				continue // not stable in the baseline
+			}
+
+			x, okx := c1[k]
+			y, oky := c2[k]
+
+			if okx != oky || !eqLines(x, y) {
+				continue // not stable in the configuration
+			}
+
+			if okx && eqLines(v, x) {
+				continue
+			}
+
+			bo := blockObs(v, true)
+			co := blockObs(x, okx)
+
+			w := Witness{
+				Kind: "corpus", Mode: mode, Base: base, Config: cfg, TestDir: dir, TestName: k,
+				BaseCmd: cmdLine(base.TestArgs(mode, "tests/"+dir)), Cmd: cmdLine(cfg.TestArgs(mode, "tests/"+dir)),
+				BaseObs: bo, Obs: co,
+			}
+
+			e.reportDiff(w, cfg, base, len(k))
+			e.r.Add("corpus_disagreements_confirmed_fresh", 1)
+
+			reported++
 		}
-
-		x, okx := c1[k]
-		y, oky := c2[k]
-
-		if okx != oky || !eqLines(x, y) {
-			continue // not stable in the configuration
-		}
-
-		if okx && eqLines(v, x) {
-			continue
-		}
-
-		bo := blockObs(v, true)
-		co := blockObs(x, okx)
-
-		w := Witness{
-			Kind: "corpus", Mode: mode, Base: base, Config: cfg, TestDir: dir, TestName: k,
-			BaseCmd: cmdLine(base.TestArgs(mode, "tests/"+dir)), Cmd: cmdLine(cfg.TestArgs(mode, "tests/"+dir)),
-			BaseObs: bo, Obs: co,
-		}
-
-		e.reportDiff(w, cfg, base, len(k))
-		e.r.Add("corpus_disagreements_confirmed_fresh", 1)
 	}
+}
+
+// corpusKind names the way a test block changed.
+func corpusKind(w Witness) string {
+	bad := func(o Obs) bool { return o.Failed || len(o.Err) > 0 }
+
+	switch {
+	case strings.HasPrefix(w.TestName, "#"):
+		return "summary-differs:" + w.TestDir
+	case !bad(w.BaseObs) && bad(w.Obs):
+		return "test-fails:" + w.TestDir
+	case bad(w.BaseObs) && !bad(w.Obs):
+		return "test-stops-failing:" + w.TestDir
+	case bad(w.BaseObs) && bad(w.Obs):
+		return "test-fails-differently:" + w.TestDir
+	}
+
+	return "test-output-differs:" + w.TestDir
 }
 
 // blockObs presents a test block as an observation: a FAIL status or a
